@@ -58,7 +58,9 @@ def _mk_scripted():
             self.queue = []
             return self, self.emitted
 
-    return Scripted
+    # HIVE's update_instruction_generator looks a generator up by its *class* name while the table is keyed by .name:
+    # every scripted generator gets a class of its own, named like the generator
+    return lambda nm: type(nm, (Scripted,), {})(nm)
 
 
 def _mk_capture():
@@ -162,6 +164,8 @@ class History:
             self._op_inject(*op[1:])
         elif kind == "relocate":
             self._op_relocate(*op[1:])
+        elif kind == "reinject":
+            self._op_reinject(*op[1:])
         elif kind == "retain":
             self._op_retain()
         elif kind == "branch":
@@ -378,6 +382,15 @@ class History:
             self._crashed(exc)
             return None
 
+    def oos_instruction_accepted(self, sim, vid: str) -> bool:
+        """INSTRUCTION reports list the selected instructions whether or not they were accepted. Would an OutOfServiceInstruction
+        for `vid`, applied alone to `sim` (the state the generators saw), be accepted? (side application, nothing adopted)"""
+        from nrel.hive.dispatcher.instruction.instructions import OutOfServiceInstruction
+
+        v0 = sim.vehicles.get(vid)
+        s2 = self.try_apply(sim, OutOfServiceInstruction(vid)) if v0 is not None else None
+        return s2 is not None and s2.vehicles[vid].vehicle_state.instance_id != v0.vehicle_state.instance_id
+
     def _op_probe_batch(self, directives) -> None:
         """apply several instructions (at most one per vehicle) at once, and separately one at a time in the same
         order; monitors with a `batch` method compare the two results"""
@@ -433,7 +446,7 @@ class History:
         if factor < 1.0:
             self.flag("plug_throttled")
 
-    def _op_inject(self, o_sel: int, d_sel: int) -> None:
+    def _op_inject(self, o_sel: int, d_sel: int, m_sel: int = 0) -> None:
         """co-simulation style demand injection: add a request to the current state through the public
         simulation_state_ops API, stamped with the current simulation time (possible even before the first step)"""
         import h3
@@ -447,10 +460,39 @@ class History:
         fl = self.spec.get("fleet_ids") or []
         self._injected = getattr(self, "_injected", 0) + 1
         r = Request.build(f"x{self._injected}", og, dg, self.sim.road_network, self.sim.sim_time, 1, False, fleet_id=fl[o_sel % len(fl)] if fl else None, value=5.0)
+        if fl and m_sel % 4:
+            # a request source of its own may offer a request to several fleets, or re-offer it to another one, through the
+            # public Request.set_membership (the file loader can only name one fleet)
+            mode = m_sel % 4
+            ids = tuple(fl[:2]) if mode == 1 else (fl[(o_sel + 1 + m_sel // 4) % len(fl)],) if mode == 2 else tuple(fl)
+            r = r.set_membership(ids)
+            self.flag("request_membership_set_after_build")
         res = ops.add_request_safe(self.sim, r)
         self.rp = self.rp._replace(s=res.unwrap())
         self.stats["requests_injected"] += 1
         self.flag("request_injected")
+
+    def _op_reinject(self, gsel: int) -> None:
+        """co-simulation style: take one of the installed instruction generators and hand the very same object back
+        through runner_payload_ops.update_instruction_generator (a no-op by contract: order and content stay as configured)"""
+        from nrel.hive.runner import runner_payload_ops as rpo
+
+        g = self.generators[gsel % len(self.generators)]
+        from returns.result import Success
+
+        try:
+            with quiet():
+                res = rpo.update_instruction_generator_safe(self.rp, g)
+        except Exception as exc:
+            self._crashed(exc)
+            return
+        if not isinstance(res, Success):
+            self.stats["generator_hand_back_refused"] += 1
+            return
+        self.rp = res.unwrap()
+        self.stats["generators_handed_back"] += 1
+        if g is not self.generators[-1]:
+            self.flag("non_last_generator_handed_back")
 
     def _op_relocate(self, which: int, esel: int, site_sel: int) -> None:
         """co-simulation style entity editing: hand HIVE a station / base whose position differs from the registered one
